@@ -189,6 +189,9 @@ func ifNud(p *parser, t *token) *token {
 	for {
 		first := p.Expression(0, "{")
 		if p.Token.Symbol == ";" {
+			if first.Symbol == "call" { // the init clause is a statement: a call there yields no value
+				first.Tokens[2].Text = "0"
+			}
 			t.Append(first)
 			p.Advance(";")
 			t.Append(p.Expression(0, "{"))
